@@ -33,7 +33,8 @@ RULE = ('case = prior local state (archive file: absent / empty / proper prefix 
         'stream).  Non-trivial = the server is contacted at least once AND (a fault is injected OR a prior archive / '
         'marker exists).  distinct = distinct case dicts.  thorough: additionally EXHAUSTIVE over '
         '{archives of 0..4 bytes} x {all prior archive states above} x {5 constant probe policies} x '
-        '{per-attempt GET policy}^2 with every truncation / flip offset.')
+        '{per-attempt GET policy: honest, Range ignored, substituted content (with / without Range), trailing byte, '
+        'connection error, truncation / bit flip / mid-stream exception at every offset}^2.')
 TRUSTED = ['hashlib.sha256 as the reference digest in the oracle and in the sha table handed to the model '
            '(kapture.compute_sha256sum is the code under test and is NOT used by the harness)',
            'the fake server: requests.Session.request replaced by harness code building real requests.Response objects',
@@ -45,6 +46,8 @@ ASSUMPTIONS = ['single process, no concurrent modification of the install direct
                'the installed index file, when present, holds a YAML list of names (or is empty)',
                'an extraction failure (untar_file raising) on a VERIFIED archive is a local fault, not a server '
                'behaviour: the property then requires only that nothing is marked installed',
+               'C17_any_history composes single calls: the only state carried from one call to the next is the archive '
+               'file and the installed index file (each call is run by the harness from an arbitrary such state)',
                'adaptive servers are covered because the client is deterministic: a server strategy is a function of '
                'the request history, which is what the Coq theorems quantify over']
 EXHAUSTIVE = {'quick': False, 'thorough': True}
@@ -147,13 +150,16 @@ def get_policies(n, full):
     """per-attempt GET behaviours for an archive of n bytes"""
     pol = [('honest', G()), ('ignore-range', G(rng='ignore')), ('alt', G(src='alt')),
            ('alt-ignore', G(src='alt', rng='ignore')), ('extra', G(extra=H(b'+'))),
-           ('conn', G(conn=True)), ('http404', G(src='alt', http=404, rng='ignore'))]
+           ('conn', G(conn=True))]
+    if not full:
+        pol.append(('http404', G(src='alt', http=404, rng='ignore')))
     offs = range(n + 1) if full else sorted({0, n // 2, max(n - 1, 0)})
     for k in offs:
         if k < n:
             pol.append((f'cut{k}', G(cut=k)))
             pol.append((f'flip{k}', G(flip=k)))
-            pol.append((f'cut{k}-ignore', G(cut=k, rng='ignore')))
+            if not full:
+                pol.append((f'cut{k}-ignore', G(cut=k, rng='ignore')))
         pol.append((f'stream-err{k}', G(cut=k, stream_err=True)))
     return pol
 
@@ -288,7 +294,7 @@ def gen_cases(rng, tier):
         rng.shuffle(sub)
         cases.extend(sub[:500])
     # --- D. random compositions
-    n_rand = 9000 if thorough else 900
+    n_rand = 6000 if thorough else 900
     for _ in range(n_rand):
         n = rng.choice([0, 1, 2, 3, 5, 8, 13, 40])
         printable = rng.random() < 0.8
@@ -775,7 +781,8 @@ LEVEL_TEXT = ('Theorems in coq/Props/C17.v hold for every server strategy, every
               'published checksum and happens before the marker is written; the marker is newly written only after a '
               'successful verified extraction; every other outcome (status corrupted / incomplete, or an exception) '
               'leaves the extraction log empty (or holds one verified extraction that itself failed), no marker and no '
-              'upgrade; other datasets\' markers never change; install never returns "downloaded"/"not installed"; an '
+              'upgrade; other datasets\' markers never change; install never returns "downloaded"/"not installed"; the '
+              'invariant composes over any history of calls (C17_any_history); an '
               'honest server always leads to a verified installation from every prior state. The model is tied to the '
               'code by running the real Dataset.install / install command against a fake requests layer and comparing '
               'status, archive file, installed index, request sequence (incl. Range offsets) and extraction / upgrade '
